@@ -79,6 +79,41 @@ def check_frame(prog: Program, res: Result) -> None:
     res.floor(R, 32)
 
 
+def _key_dispatch(body):
+    """The per-key conversion of a loaded chunk, in either spelling:
+         for k, v in D.items(): if k != K: out[k] = OTHER else: out[k] = ON_KEY        (or == with the arms swapped)
+         out = {k: (ON_KEY if k == K else OTHER) for k, v in D.items()}
+       -> (K, key var, value var, D, ON_KEY expr, OTHER expr) or None."""
+    def split(test, a, o):
+        if isinstance(test, ast.Compare) and len(test.ops) == 1 and isinstance(test.ops[0], (ast.Eq, ast.NotEq)) and isinstance(test.left, ast.Name):
+            K = astq.const_value(test.comparators[0])
+            if isinstance(K, str):
+                return (K, test.left.id, a, o) if isinstance(test.ops[0], ast.Eq) else (K, test.left.id, o, a)
+        return None
+
+    for st in body:
+        for n in ast.walk(st):
+            if isinstance(n, ast.For) and isinstance(n.iter, ast.Call) and isinstance(n.iter.func, ast.Attribute) and n.iter.func.attr == "items" \
+                    and isinstance(n.target, ast.Tuple) and len(n.target.elts) == 2:
+                kv, vv = [norm(e) for e in n.target.elts]
+                g = [x for x in n.body if isinstance(x, ast.If)]
+                if len(g) == 1 and len(g[0].body) == 1 and len(g[0].orelse) == 1 and isinstance(g[0].body[0], ast.Assign) and isinstance(g[0].orelse[0], ast.Assign):
+                    a, o = g[0].body[0], g[0].orelse[0]
+                    if all(isinstance(x.targets[0], ast.Subscript) and norm(x.targets[0].slice) == kv for x in (a, o)) and norm(a.targets[0].value) == norm(o.targets[0].value):
+                        r = split(g[0].test, a.value, o.value)
+                        if r and r[1] == kv:
+                            return r[0], kv, vv, norm(n.iter.func.value), r[2], r[3]
+            if isinstance(n, ast.DictComp) and len(n.generators) == 1 and not n.generators[0].ifs:
+                g = n.generators[0]
+                if isinstance(g.iter, ast.Call) and isinstance(g.iter.func, ast.Attribute) and g.iter.func.attr == "items" and isinstance(g.target, ast.Tuple) and len(g.target.elts) == 2:
+                    kv, vv = [norm(e) for e in g.target.elts]
+                    if norm(n.key) == kv and isinstance(n.value, ast.IfExp):
+                        r = split(n.value.test, n.value.body, n.value.orelse)
+                        if r and r[1] == kv:
+                            return r[0], kv, vv, norm(g.iter.func.value), r[2], r[3]
+    return None
+
+
 def check_npz(prog: Program, res: Result) -> None:
     R = "C18-npz"
     for cname, key in (("BaseDataset", "image"), ("CenteredInstanceDataset", "instance_image"), ("CentroidDataset", "image")):
@@ -117,19 +152,16 @@ def check_npz(prog: Program, res: Result) -> None:
             res.ob(R, False, gi.qualname, "one np_chunks branch in __getitem__", f"{len(branch)} np_chunks branches", gi.where)
             continue
         b = branch[0]
-        ld = [s for s in b.body if isinstance(s, ast.Assign) and isinstance(s.value, ast.Call) and norm(s.value.func) == "np.load"]
+        ld = [s for s in b.body if isinstance(s, ast.Assign) and isinstance(s.value, ast.Call) and norm(s.value.func) in ("np.load", "numpy.load")]
         ok = len(ld) == 1 and norm(ld[0].value.args[0]) == "f'{self.np_chunks_path}/sample_{index}.npz'"
         res.ob(R, ok, gi.qualname, "reader: np.load(<path>/sample_<index>.npz)", "the reader does not load <np_chunks_path>/sample_<index>.npz", gi.where)
-        loops = [n for n in b.body if isinstance(n, ast.For) and norm(n.iter).endswith(".items()")]
-        ok = len(loops) == 1
+        disp = _key_dispatch(b.body)
+        ok = disp is not None
         if ok:
-            g = [n for n in loops[0].body if isinstance(n, ast.If)]
-            ok = len(g) == 1 and isinstance(g[0].test, ast.Compare) and isinstance(g[0].test.ops[0], ast.NotEq) and astq.const_value(g[0].test.comparators[0]) == key
-            if ok:
-                a, o = g[0].body[0], g[0].orelse[0] if g[0].orelse else None
-                ok = isinstance(a, ast.Assign) and norm(a.value) == "torch.from_numpy(v)" and norm(a.targets[0]) == "sample[k]"
-                ok = ok and isinstance(o, ast.Assign) and norm(o.targets[0]) == "sample[k]" \
-                    and norm(o.value).replace(" ", "") == f"self.transform_pil_to_tensor(Image.fromarray(ex['{key}'])).unsqueeze(dim=0)"
+            K, kv, vv, src, on_key, other = disp
+            img_forms = {f"self.transform_pil_to_tensor(Image.fromarray({src}['{key}'])).unsqueeze(dim=0)", f"self.transform_pil_to_tensor(Image.fromarray({vv})).unsqueeze(dim=0)",
+                         f"self.transform_pil_to_tensor(Image.fromarray({src}[{kv}])).unsqueeze(dim=0)", f"self.transform_pil_to_tensor(Image.fromarray({vv})).unsqueeze(0)"}
+            ok = K == key and norm(other) == f"torch.from_numpy({vv})" and norm(on_key).replace('"', "'") in img_forms
         res.ob(R, ok, gi.qualname, f"reader: '{key}' -> ToTensor(fromarray).unsqueeze(0), every other key -> from_numpy",
                f"the reader's branch on '{key}' is not the inverse of the writer (ToTensor(Image.fromarray(.)).unsqueeze(0) / torch.from_numpy)", gi.where)
         mem = [s for s in b.orelse if isinstance(s, ast.Assign) and norm(s.targets[0]) == "sample"]
